@@ -47,7 +47,7 @@ type schemaSpec struct {
 }
 
 type modeT struct {
-	Errors, Thunks, AllThunks, Exts bool
+	Errors, Thunks, AllThunks, Exts, FailLeaves bool
 }
 
 func (m modeT) String() string {
@@ -55,7 +55,7 @@ func (m modeT) String() string {
 	for _, p := range []struct {
 		b bool
 		n string
-	}{{m.Errors, "err"}, {m.Thunks, "thunk"}, {m.AllThunks, "allthunk"}, {m.Exts, "ext"}} {
+	}{{m.Errors, "err"}, {m.Thunks, "thunk"}, {m.AllThunks, "allthunk"}, {m.Exts, "ext"}, {m.FailLeaves, "failleaves"}} {
 		if p.b {
 			s += "+" + p.n
 		}
@@ -139,7 +139,7 @@ func buildCases(seed uint64, thorough bool) ([]schemaSpec, []caseT) {
 		c.ID = fmt.Sprintf("%03d:%s:%s:%s", len(cases), specs[c.Schema].Name, c.Mode, c.Kind)
 		cases = append(cases, c)
 	}
-	modes := []modeT{{}, {Errors: true}, {Thunks: true}, {Errors: true, Thunks: true}, {Errors: true, AllThunks: true}}
+	modes := []modeT{{}, {Errors: true}, {Thunks: true}, {Errors: true, Thunks: true}, {Errors: true, AllThunks: true}, {FailLeaves: true, AllThunks: true}, {FailLeaves: true, Thunks: true}}
 	// hand-written requests on the wide schema, in every world mode that matters for them
 	for _, wr := range wideRequests {
 		ms := []modeT{{}}
@@ -184,7 +184,7 @@ func buildCases(seed uint64, thorough bool) ([]schemaSpec, []caseT) {
 			}
 			m := modes[d%len(modes)]
 			kind := "valid"
-			if m.Errors {
+			if m.Errors || m.FailLeaves {
 				kind = "exec-fail"
 			} else if m.Thunks {
 				kind = "thunks"
@@ -257,7 +257,7 @@ func (e *env) schema(c *caseT) (*graphql.Schema, *graphql.PlanCache, error) {
 		return s, e.caches[k], nil
 	}
 	w := detworld.New(e.specs[c.Schema].Desc, 7)
-	w.Errors, w.Thunks, w.AllThunks = c.Mode.Errors, c.Mode.Thunks, c.Mode.AllThunks
+	w.Errors, w.Thunks, w.AllThunks, w.FailLeaves = c.Mode.Errors, c.Mode.Thunks, c.Mode.AllThunks, c.Mode.FailLeaves
 	hooks := w.Hooks()
 	if e.specs[c.Schema].Name == "wide" {
 		hooks.Subscribe = nil
